@@ -51,6 +51,7 @@ RECIPES = {
         "assumptions": COMMON_ASSUME + ["private fields (vd_aux, vd_next, vn_aux, vn_next, vna_next, vda_next) are observed through iteration (C13/C16), not here"],
     },
     "C09": {
+        "custom": [behaviours.apalache_iter_induction],
         "level": "model_checking",
         "mc": {"quick": [("MC_Table", "MC_Table_q", 12)], "thorough": [("MC_Table", "MC_Table_t", 14)]},
         "families": {"quick": [("table", 800, 4)], "thorough": [("table", 6000, 12)]},
@@ -179,6 +180,7 @@ RECIPES = {
         "reasons": ("value", "panic"),
         "tags": ["q:section_data", "q:segment_data", "q:section_data_as_strtab", "q:section_data_as_notes",
                  "q:segment_data_as_notes", "q:section_data_as_rels", "q:section_data_as_relas", "q:shdrs_with_strtab",
+                 "q:symbol_table", "q:dynamic_symbol_table", "q:dynamic", "q:symbol_version_table", "q:find_common_data",
                  "notes", "str_get_raw", "str_get"],
         "rule": "A: minimal object + payload; caller-made section/segment headers with offset x size over {0,1,64,65,L-1,L,L+1,"
                 "2^31,2^32-1,2^63,2^64-1} x {0,1,23,24,25,L-64,L-63,L,...} x {PROGBITS,STRTAB,NOTE,NOBITS,REL} x SHF_COMPRESSED, "
@@ -228,12 +230,13 @@ RECIPES = {
         "custom": [STREAM_A],
         "neg": {"quick": [NEG_STREAM[4], NEG_STREAM[5], NEG_STREAM[7]]},
         "level": "model_checking",
-        "families": {"quick": [("sbig", 14, 4), ("stream", 5, 2)], "thorough": [("sbig", 120, 10), ("stream", 40, 4)]},
+        "families": {"quick": [("sbig", 14, 4), ("stream", 5, 2), ("sfault", 2, 2)], "thorough": [("sbig", 120, 10), ("stream", 40, 4), ("sfault", 12, 4)]},
         "reasons": ("bound", "lazy", "panic", "died"),
         "tags": SQ_ALL,
         "rule": "B: objects whose size/offset/count/link fields claim 2^20..2^64-1 in streams of a few KiB; per call the largest "
                 "single allocation (counting allocator) must be <= 8*len+16KiB and every byte read (instrumented reader) must lie "
-                "in a range the call designates (spec-computed); oversized requests above 1 GiB are refused and recorded as died",
+                "in a range the call designates (spec-computed), also on the calls that follow an I/O fault (a retry must not read "
+                "from wherever the failed call left the cursor); oversized requests above 1 GiB are refused and recorded as died",
         "assumptions": COMMON_ASSUME + ["the harness's own bookkeeping allocations are excluded by pausing the counter inside reader callbacks and projections"],
     },
     "C17": {
